@@ -247,12 +247,16 @@ def main(argv=None):
     for v in agg.viols:
         by_key.setdefault(v["key"], v)
     reported = 0
+    replayed_known = set()
     confirmed = 0
     known_hit = []
     flaky = 0
     for key, v in by_key.items():
         if key in known:
             known_hit.append(key)
+            if id(known[key]) not in replayed_known:
+                replayed_known.add(id(known[key]))
+                write_replay(prop, v)  # one replayable artefact per known finding
             continue
         do_confirm = getattr(mod, "CONFIRM", True) and not os.environ.get("VERIF_NOCONFIRM") and confirmed < 40
         confirmed += 1
